@@ -17,6 +17,8 @@ import (
 	"fmt"
 	"math/big"
 	"net/url"
+	"os"
+	"path/filepath"
 	"sync"
 
 	"github.com/shogo82148/goat/ed448"
@@ -90,11 +92,15 @@ func c01CurveOrder(name string) *big.Int {
 }
 
 func c01GenPrime(r *vf.Rand, bits int) *big.Int {
+	nb := (bits + 7) / 8
+	excess := uint(nb*8 - bits)
 	for {
-		b := r.Bytes(bits / 8)
-		b[0] |= 0xC0
-		b[len(b)-1] |= 1
+		b := r.Bytes(nb)
+		b[0] &= 0xFF >> excess
 		p := new(big.Int).SetBytes(b)
+		p.SetBit(p, bits-1, 1) // exactly `bits` bits, top two set so that p*q has 2*bits bits
+		p.SetBit(p, bits-2, 1)
+		p.SetBit(p, 0, 1)
 		if p.ProbablyPrime(20) {
 			return p
 		}
@@ -168,6 +174,63 @@ func c01Keys() []*c01Key {
 		}
 	})
 	return c01Pool
+}
+
+// Large RSA keys (signature sizes around the internal buffer boundaries of jwt.Sign: 512 raw bytes
+// are reserved, so 4096 bits fit exactly and 4104 bits are the first that do not).  They are
+// generated ONCE, deterministically, and cached under out/ (key generation of 8192 bits takes
+// minutes); pool index = c01BigBase + bits.
+const c01BigBase = 100000
+
+var (
+	c01BigMu   sync.Mutex
+	c01BigKeys = map[int]*c01Key{}
+)
+
+func c01BigRSA(bits int) *c01Key {
+	c01BigMu.Lock()
+	defer c01BigMu.Unlock()
+	if k, ok := c01BigKeys[bits]; ok {
+		return k
+	}
+	path := filepath.Join(vf.VerifDir(), "out", fmt.Sprintf("c02-rsa-%d.json", bits))
+	var st struct{ P, Q string }
+	var key *rsa.PrivateKey
+	if data, err := os.ReadFile(path); err == nil && json.Unmarshal(data, &st) == nil {
+		p, ok1 := new(big.Int).SetString(st.P, 16)
+		q, ok2 := new(big.Int).SetString(st.Q, 16)
+		if ok1 && ok2 {
+			n := new(big.Int).Mul(p, q)
+			e := big.NewInt(65537)
+			phi := new(big.Int).Mul(new(big.Int).Sub(p, big.NewInt(1)), new(big.Int).Sub(q, big.NewInt(1)))
+			if d := new(big.Int).ModInverse(e, phi); d != nil && n.BitLen() == bits {
+				key = &rsa.PrivateKey{PublicKey: rsa.PublicKey{N: n, E: 65537}, D: d, Primes: []*big.Int{p, q}}
+				key.Precompute()
+				if key.Validate() != nil {
+					key = nil
+				}
+			}
+		}
+	}
+	if key == nil {
+		key = c01GenRSA(vf.NewRand(uint64(c01PoolSeed)+uint64(bits)), bits)
+		st.P, st.Q = key.Primes[0].Text(16), key.Primes[1].Text(16)
+		if data, err := json.Marshal(st); err == nil {
+			os.MkdirAll(filepath.Dir(path), 0o755)
+			os.WriteFile(path, data, 0o644)
+		}
+	}
+	k := &c01Key{Idx: c01BigBase + bits, Kind: "rsa", Bits: bits, RSA: key}
+	c01BigKeys[bits] = k
+	return k
+}
+
+// c01KeyByIdx resolves a pool index (small pool, or a large RSA key).
+func c01KeyByIdx(idx int) *c01Key {
+	if idx >= c01BigBase {
+		return c01BigRSA(idx - c01BigBase)
+	}
+	return c01Keys()[idx%len(c01Keys())]
 }
 
 func c01KeysOf(kind, crv string, minBits int) []*c01Key {
@@ -275,7 +338,7 @@ func c01GoatKey(ref c01KeyRef) sig.Key {
 	if ref.Variant == "nilptr" {
 		return (*jwk.Key)(nil)
 	}
-	k := c01Keys()[ref.Idx%len(c01Keys())]
+	k := c01KeyByIdx(ref.Idx)
 	var priv crypto.PrivateKey
 	var pub crypto.PublicKey
 	switch k.Kind {
@@ -358,7 +421,7 @@ func c01KeyWire(ref c01KeyRef) vf.Wire {
 		// alg none (which never calls a method); other algorithms are not generated with it.
 		return vf.Obj(vf.KV{K: "nil", V: vf.Bool(false)}, vf.KV{K: "canSign", V: vf.Bool(true)}, vf.KV{K: "canVerify", V: vf.Bool(true)})
 	}
-	k := c01Keys()[ref.Idx%len(c01Keys())]
+	k := c01KeyByIdx(ref.Idx)
 	id := vf.Int(int64(k.Idx))
 	priv, pub := vf.Obj(), vf.Obj()
 	switch k.Kind {
@@ -653,7 +716,7 @@ func init() {
 		return vf.Bytes(c01RefEd448Sign(p[:57], argN(a, 1).Bytes))
 	})
 	RegisterOracle("c02.rsa.signPKCS1v15", func(a []vf.Wire) vf.Wire {
-		k := c01Keys()[int(argN(a, 0).AsInt())%len(c01Keys())]
+		k := c01KeyByIdx(int(argN(a, 0).AsInt()))
 		if k.Kind != "rsa" {
 			return vf.None()
 		}
